@@ -2,6 +2,7 @@
 // usage: c02_replay range            out-of-range requests must be reported as errors and touch no bin
 //        c02_replay header <dir>     header + data written with several segment orders read back with equal geometry and values (needs STIR_CONFIG_DIR)
 //        c02_replay visible <dir>    file-backed data, writer kept open: after every write call an independent reader of the file sees the values
+//        c02_replay scale <dir>      on-disk SHORT with scale factor 0.5: every write path stores with the factor the readers multiply with
 //        c02_replay paths            values written through one access path are read back through the others, nothing else changes
 // exit 0: property holds on everything tried; exit 1 + "CONFIRMED ..." line: violated
 #include "stir/ProjDataInMemory.h"
@@ -259,12 +260,62 @@ static int visible(const char* dir)
   return 0;
 }
 
+// "read back unchanged ... whatever the ... on-disk number type": file of shorts with a scale factor != 1; values are
+// multiples of the scale factor (exactly representable), written through each path and read back through get_bin_value
+static int scale_paths(const char* dir)
+{
+  shared_ptr<ProjDataInfo> info = make_info();
+  shared_ptr<ExamInfo> exam(new ExamInfo);
+  exam->imaging_modality = ImagingModality::PT;
+  const ProjDataInfo& pi = *info;
+  for (int order = 0; order < 2; ++order)
+    {
+      ProjDataInterfile pd(exam, info, std::string(dir) + "/c02_scale_" + std::to_string(order), std::ios::in | std::ios::out | std::ios::trunc,
+                           order ? ProjDataFromStream::Segment_View_AxialPos_TangPos : ProjDataFromStream::Segment_AxialPos_View_TangPos,
+                           NumericType::SHORT, ByteOrder::native, 0.5F);
+      Ref ref;
+      for (int s = pi.get_min_segment_num(); s <= pi.get_max_segment_num(); ++s)
+        {
+          SegmentByView<float> seg = info->get_empty_segment_by_view(s);
+          for (int v = pi.get_min_view_num(); v <= pi.get_max_view_num(); ++v)
+            for (int a = pi.get_min_axial_pos_num(s); a <= pi.get_max_axial_pos_num(s); ++a)
+              for (int t = pi.get_min_tangential_pos_num(); t <= pi.get_max_tangential_pos_num(); ++t)
+                { seg[v][a][t] = 4.F; ref[key(Bin(s, v, a, t))] = 4.F; }
+          pd.set_segment(seg);
+        }
+      if (!snapshot_equal(pd, ref, "shorts with scale factor 0.5 after set_segment")) return 1;
+      const int s = 1, v0 = pi.get_min_view_num() + 2, a0 = pi.get_min_axial_pos_num(s) + 1;
+      Viewgram<float> vg = info->get_empty_viewgram(v0, s);
+      for (int a = pi.get_min_axial_pos_num(s); a <= pi.get_max_axial_pos_num(s); ++a)
+        for (int t = pi.get_min_tangential_pos_num(); t <= pi.get_max_tangential_pos_num(); ++t)
+          { vg[a][t] = 7.5F; ref[key(Bin(s, v0, a, t))] = 7.5F; }
+      pd.set_viewgram(vg);
+      if (!snapshot_equal(pd, ref, "shorts with scale factor 0.5 after set_viewgram")) return 1;
+      Sinogram<float> sg = info->get_empty_sinogram(a0, s);
+      for (int v = pi.get_min_view_num(); v <= pi.get_max_view_num(); ++v)
+        for (int t = pi.get_min_tangential_pos_num(); t <= pi.get_max_tangential_pos_num(); ++t)
+          { sg[v][t] = 12.F; ref[key(Bin(s, v, a0, t))] = 12.F; }
+      pd.set_sinogram(sg);
+      if (!snapshot_equal(pd, ref, "shorts with scale factor 0.5 after set_sinogram")) return 1;
+      Bin b(0, pi.get_min_view_num() + 1, pi.get_min_axial_pos_num(0) + 2, 3, 0, 10.F);
+      ref[key(b)] = 10.F;
+      pd.set_bin_value(b);
+      if (!snapshot_equal(pd, ref, "shorts with scale factor 0.5 after set_bin_value(10)")) return 1;
+    }
+  return 0;
+}
+
 int main(int argc, char** argv)
 {
   if (argc < 2) return 2;
   if (!strcmp(argv[1], "header"))
     {
       try { const int rc = header(argc > 2 ? argv[2] : "."); if (!rc) std::printf("REPLAY ok\n"); return rc; }
+      catch (...) { std::printf("exception\n"); return 3; }
+    }
+  if (!strcmp(argv[1], "scale"))
+    {
+      try { const int rc = scale_paths(argc > 2 ? argv[2] : "."); if (!rc) std::printf("REPLAY ok\n"); return rc; }
       catch (...) { std::printf("exception\n"); return 3; }
     }
   if (!strcmp(argv[1], "visible"))
